@@ -444,10 +444,13 @@ let run_case op toks =
       let len = next_z toks in
       let buf = span_buf 16 in
       let parent = mk_span x start len in
+      (* c > len (dynamic-extent parent only): outside [span.sub]'s domain, the run-time check fires *)
+      let line r = res_tok (span_line buf) r in
       if kind = "sp_first_s" then
-        (span_line buf (sp_first_s parent c), spec_span_line buf start c (Some c))
+        (line (sp_first_s parent c), if z_le c len then spec_span_line buf start c (Some c) else "na")
       else
-        (span_line buf (sp_last_s parent c), spec_span_line buf (Z.add start (Z.sub len c)) c (Some c))
+        (line (sp_last_s parent c),
+         if z_le c len then spec_span_line buf (Z.add start (Z.sub len c)) c (Some c) else "na")
     end
   | "sp_sub_s" -> begin
       let x = ext_opt (next_z toks) in
@@ -460,7 +463,8 @@ let run_case op toks =
       let parent = mk_span x start len in
       let cnt = (match c with Some n -> n | None -> Z.sub len o) in
       let ext = (match c with Some n -> Some n | None -> (match x with Some xx -> Some (Z.sub xx o) | None -> None)) in
-      (span_line buf (sp_sub_s parent o c), spec_span_line buf (Z.add start o) cnt ext)
+      let dom = z_le o len && (match c with None -> true | Some n -> z_le n (Z.sub len o)) in
+      (res_tok (span_line buf) (sp_sub_s parent o c), if dom then spec_span_line buf (Z.add start o) cnt ext else "na")
     end
   | "sp_dyn" -> begin
       let x = ext_opt (next_z toks) in
@@ -486,6 +490,13 @@ let run_case op toks =
           let dom = z_le o len && (match c with None -> true | Some n -> z_le n (Z.sub len o)) in
           let cnt = (match c with Some n -> n | None -> Z.sub len o) in
           (line (sp_sub_d parent o c), if dom then spec_span_line buf (Z.add start o) cnt None else "na")
+      | "sp_fb" ->
+          let tok r = res_tok (fun off -> join [ "ok"; zs off; zs (Z.add (zi 100) off) ]) r in
+          (join [ "ok"; "f"; tok (sp_front parent); "b"; tok (sp_back parent) ],
+           if z_lt Z0 len then
+             join [ "ok"; "f"; "ok"; zs start; zs (Z.add (zi 100) start); "b"; "ok";
+                    zs (Z.sub (Z.add start len) (zi 1)); zs (Z.add (zi 100) (Z.sub (Z.add start len) (zi 1))) ]
+           else "na")
       | "sp_obs" ->
           let i = size_arg a in
           let bytes_line (r : spanv) =
